@@ -12,6 +12,8 @@ spec/P2P.tla   one peer session of client/network: the wire grammar of every com
      universe (TryLock / liveness probe), the barrier that proves the handler returned (time bound), process death.
      For messages whose effect the model determines (valid payloads, dispatch rules, frame header) outcome and
      session state are compared as well (a mismatch is model drift: exit 2, never a verdict).
+  2b. "repeat until banned": every class the node answers with misbehaviour points is sent again and again until the
+     score rule of the model (BanScore) predicts the ban, and once more; all locks probed after every message
   3. every violation is re-run alone in a fresh process before it is reported; the replay file holds the bytes
   4. the library entry points named by the property, with the same perturbation classes and seeded mutations
   5. self-tests of the observer (injected leaked lock / panic event / stuck handler must be seen) and of the
